@@ -35,8 +35,12 @@ enum Kind {
 	Listener,
 	SpatialTrack,
 	FallibleSoundMain,
+	/// child tracks of a parent that is paused throughout
+	NestedUnderPaused,
+	/// a resource = a child track with its own child; dropping it drops both handles (child first)
+	NestedChain,
 }
-const KINDS: [Kind; 12] = [
+const KINDS: [Kind; 14] = [
 	Kind::ProbeSoundMain,
 	Kind::StaticSoundMain,
 	Kind::SoundSub,
@@ -49,6 +53,8 @@ const KINDS: [Kind; 12] = [
 	Kind::Listener,
 	Kind::SpatialTrack,
 	Kind::FallibleSoundMain,
+	Kind::NestedUnderPaused,
+	Kind::NestedChain,
 ];
 const CAPS: [usize; 3] = [0, 1, 2];
 const LETTERS: [&str; 5] = ["create", "drop oldest handle", "drop newest handle", "finish oldest sound", "callback"];
@@ -110,7 +116,7 @@ impl Check for C08 {
 		format!("{:?} capacity {}", k, c)
 	}
 	fn rule(&self) -> String {
-		"all histories of length <= depth over {create, drop oldest handle, drop newest handle, finish oldest sound, callback} x 12 resource kinds x capacity {0,1,2}, judged by a counting model (pending / adopted / marked); plus 5 stale-id scenarios (clock, modulator, listener, send track, sub-track slot reuse). states = distinct model states (per-resource phase vectors); non-trivial = histories in which at least one creation succeeded and one removal happened".into()
+		"all histories of length <= depth over {create, drop oldest handle, drop newest handle, finish oldest sound, callback} x 14 resource kinds (incl. child tracks of a paused parent, and child+grandchild chains dropped together) x capacity {0,1,2}, judged by a counting model (pending / adopted / marked); plus 5 stale-id scenarios (clock, modulator, listener, send track, sub-track slot reuse). states = distinct model states (per-resource phase vectors); non-trivial = histories in which at least one creation succeeded and one removal happened".into()
 	}
 	fn assumptions(&self) -> Vec<String> {
 		vec![
@@ -228,7 +234,12 @@ fn run_history(kind: Kind, cap: usize, letters: &[u8], ctx: &mut Ctx) {
 	let mut m = rig::manager(sr, ibs, caps, main);
 	let parent = match kind {
 		Kind::SoundSub => Some(m.add_sub_track(TrackBuilder::new().sound_capacity(cap)).expect("parent track")),
-		Kind::NestedSubTrack => Some(m.add_sub_track(TrackBuilder::new().sub_track_capacity(cap)).expect("parent track")),
+		Kind::NestedSubTrack | Kind::NestedChain => Some(m.add_sub_track(TrackBuilder::new().sub_track_capacity(cap)).expect("parent track")),
+		Kind::NestedUnderPaused => {
+			let mut p = m.add_sub_track(TrackBuilder::new().sub_track_capacity(cap)).expect("parent track");
+			p.pause(instant());
+			Some(p)
+		}
 		_ => None,
 	};
 	let listener = if kind == Kind::SpatialTrack {
@@ -444,8 +455,16 @@ fn create(r: &mut Rig, kind: Kind, serial: usize) -> Created {
 			Ok(h) => Created::Ok(Box::new(h), None),
 			Err(_) => Created::Limit,
 		},
-		Kind::NestedSubTrack => match r.parent.as_mut().unwrap().add_sub_track(TrackBuilder::new()) {
+		Kind::NestedSubTrack | Kind::NestedUnderPaused => match r.parent.as_mut().unwrap().add_sub_track(TrackBuilder::new()) {
 			Ok(h) => Created::Ok(Box::new(h), None),
+			Err(_) => Created::Limit,
+		},
+		Kind::NestedChain => match r.parent.as_mut().unwrap().add_sub_track(TrackBuilder::new().sub_track_capacity(1)) {
+			Ok(mut h) => {
+				let g = h.add_sub_track(TrackBuilder::new()).expect("grandchild");
+				// tuple fields drop in order: the child's handle first, then the grandchild's
+				Created::Ok(Box::new((h, g)), None)
+			}
 			Err(_) => Created::Limit,
 		},
 		Kind::SendTrack => match r.m.add_send_track(SendTrackBuilder::new()) {
@@ -484,7 +503,7 @@ fn reported_count(r: &mut Rig, kind: Kind) -> Option<usize> {
 		Kind::SoundSub => Some(r.parent.as_ref().unwrap().num_sounds()),
 		// the parent track of the SoundSub/NestedSubTrack scenarios lives in the manager's sub-track arena too
 		Kind::SubTrack | Kind::SpatialTrack => Some(r.m.num_sub_tracks()),
-		Kind::NestedSubTrack => Some(r.parent.as_ref().unwrap().num_sub_tracks()),
+		Kind::NestedSubTrack | Kind::NestedUnderPaused | Kind::NestedChain => Some(r.parent.as_ref().unwrap().num_sub_tracks()),
 		Kind::SendTrack => Some(r.m.num_send_tracks()),
 		Kind::Clock => Some(r.m.num_clocks()),
 		Kind::Tweener | Kind::Lfo => Some(r.m.num_modulators()),
